@@ -11,6 +11,8 @@
 package bisweep
 
 import (
+	"time"
+
 	"verif/internal/drive"
 	"verif/internal/fakeredis"
 
@@ -31,6 +33,10 @@ type Target interface {
 	Replay(apps []fakeredis.App)
 	// SetOnApplied installs a callback invoked for every applied command (under the target's lock).
 	SetOnApplied(fn func(a *fakeredis.App))
+	// SetOnRequest installs a callback invoked (under the target's lock) after every request.
+	SetOnRequest(fn func(r *fakeredis.Req))
+	// WaitIdle waits until every client connection is closed and what it had sent is processed.
+	WaitIdle(d time.Duration) bool
 	Close()
 }
 
@@ -89,4 +95,6 @@ func (t *standalone) Requests() []fakeredis.Req              { return t.srv.Requ
 func (t *standalone) Applied() []fakeredis.App               { return t.srv.Applied() }
 func (t *standalone) Replay(apps []fakeredis.App)            { t.srv.Replay(apps) }
 func (t *standalone) SetOnApplied(fn func(a *fakeredis.App)) { t.srv.SetOnApplied(fn) }
+func (t *standalone) SetOnRequest(fn func(r *fakeredis.Req)) { t.srv.SetHooks(fn, nil, nil) }
+func (t *standalone) WaitIdle(d time.Duration) bool          { return t.srv.WaitNoConns(d) }
 func (t *standalone) Close()                                 { t.srv.Close() }
